@@ -319,6 +319,203 @@ def check_rawout(run, case):
                     input_class='rawout')
 
 
+# host collections that are not the built-in types: mappings, sequences and
+# sets defined through the abstract base classes or the collections module
+
+def _host_collections():
+    import collections as C
+
+    class MyMap(C.abc.MutableMapping):
+        def __init__(self, d):
+            self.d = d
+
+        def __getitem__(self, k):
+            return self.d[k]
+
+        def __setitem__(self, k, v):
+            self.d[k] = v
+
+        def __delitem__(self, k):
+            del self.d[k]
+
+        def __iter__(self):
+            return iter(self.d)
+
+        def __len__(self):
+            return len(self.d)
+
+    class MySeq(C.abc.MutableSequence):
+        def __init__(self, l):
+            self.l = l
+
+        def __getitem__(self, i):
+            return self.l[i]
+
+        def __setitem__(self, i, v):
+            self.l[i] = v
+
+        def __delitem__(self, i):
+            del self.l[i]
+
+        def __len__(self):
+            return len(self.l)
+
+        def insert(self, i, v):
+            self.l.insert(i, v)
+
+    return {
+        'UserDict': lambda: C.UserDict({'k': [1, 2], 'n': {'x': [3]}}),
+        'ChainMap': lambda: C.ChainMap({'k': [1, 2]}, {'n': {'x': [3]}}),
+        'MutableMapping': lambda: MyMap({'k': [1, 2], 'n': {'x': [3]}}),
+        'OrderedDict': lambda: C.OrderedDict(k=[1, 2], n={'x': [3]}),
+        'defaultdict': lambda: C.defaultdict(list, k=[1, 2]),
+        'UserList': lambda: C.UserList([[1, 2], {'x': [3]}]),
+        'deque': lambda: C.deque([[1, 2], {'x': [3]}]),
+        'MutableSequence': lambda: MySeq([[1, 2], {'x': [3]}]),
+    }
+
+
+HOSTCOLL_TEXTS = ['{v}', '[{v}]', 'dict(x => {v})', '[{v}, 1].first()',
+                  'let(y => {v}) -> $y', '[[{v}]].select($)',
+                  'coalesce(null, {v})', 'switch(true => {v})']
+
+
+def _ids_inside(obj, depth=0, out=None):
+    """identities of the object and of every mutable thing reachable in it
+    (attributes of wrapper classes included)"""
+    if out is None:
+        out = set()
+    if depth > 8 or id(obj) in out:
+        return out
+    if isinstance(obj, (str, bytes, int, float, bool, type(None))):
+        return out
+    out.add(id(obj))
+    if isinstance(obj, collections.abc.Mapping):
+        for v in list(obj.values()):
+            _ids_inside(v, depth + 1, out)
+    elif isinstance(obj, (collections.abc.Sequence, collections.abc.Set)):
+        for v in list(obj):
+            _ids_inside(v, depth + 1, out)
+    for attr in ('data', 'd', 'l', 'maps'):
+        if hasattr(obj, attr):
+            _ids_inside(getattr(obj, attr), depth + 1, out)
+    return out
+
+
+def _any_shared(res, ids, depth=0, seen=None):
+    if seen is None:
+        seen = set()
+    if depth > 30 or id(res) in seen:
+        return None
+    seen.add(id(res))
+    if isinstance(res, (str, bytes, int, float, bool, type(None))):
+        return None
+    if id(res) in ids:
+        return type(res).__name__
+    kids = []
+    if isinstance(res, collections.abc.Mapping):
+        kids = list(res.values())
+    elif isinstance(res, (list, tuple, set, frozenset)):
+        kids = list(res)
+    for k in kids:
+        r = _any_shared(k, ids, depth + 1, seen)
+        if r:
+            return r
+    return None
+
+
+def check_hostcoll(run, case):
+    """a host collection of a non-built-in type reaches the expression as a
+    context variable or unconverted data; what the evaluation returns must
+    be plain data of its own"""
+    make = _host_collections()[case['type']]
+    obj = make()
+    snap = repr(obj)
+    tpl = HOSTCOLL_TEXTS[case['text'] % len(HOSTCOLL_TEXTS)]
+    ctx = common.child()
+    if case.get('via') == 'raw-data':
+        text = tpl.format(v='$.v')
+        kw = {'data': {'v': obj}}
+        eng = _engine(False)
+    else:
+        text = tpl.format(v='$v')
+        ctx['$v'] = obj
+        kw = {}
+        eng = _engine(True)
+    ids = _ids_inside(obj)
+    try:
+        out = ('ok', eng(text).evaluate(context=ctx, **kw))
+    except Exception as e:   # noqa
+        out = ('exc', e)
+    run.case(case, out[0] == 'ok', cls=['host-collection',
+                                       'type=' + case['type']])
+    ic = 'hostcoll:%s' % case['type']
+    if repr(obj) != snap:
+        run.violate('host-data-mutated', case, '%s changed %s' % (
+            text, case['type']), input_class=ic)
+        return
+    if out[0] != 'ok':
+        return
+    shared = _any_shared(out[1], ids)
+    if shared:
+        run.violate('result-aliases-host-data', case,
+                    '%s with a host %s returned a structure containing the '
+                    'host\'s own %s object' % (text, case['type'], shared),
+                    input_class=ic)
+        return
+    mutate_result(out[1])
+    if repr(obj) != snap:
+        run.violate('mutating-result-changes-host', case,
+                    '%s: mutating the result changed the host %s' % (
+                        text, case['type']), input_class=ic)
+
+
+def check_eval_history(run, case):
+    """yaql.eval with one document object that the host updates in place
+    between the calls: every call answers for the document as it is"""
+    import copy as _copy
+    import yaql as _yaql
+    doc = {'items': [3, 1, 2], 'd': {'k': [1]}, 'name': 'n',
+           'prices': {'a': 1, 'b': 2}}
+    if case.get('view'):
+        doc['prices'] = doc['prices'].values()
+    bad = None
+    for step in case['steps']:
+        if step[0] == 'mutate':
+            which = step[1] % 3
+            if which == 0:
+                doc['items'].append(len(doc['items']) + 10)
+            elif which == 1:
+                doc['d']['k'].append(7)
+            else:
+                doc['name'] = doc['name'] + 'x'
+            continue
+        text = ['$.items.len()', '$.items', '$.d.k', '$.name', '$',
+                '$.items.sum()', '$.d', '$.prices.sum()' if case.get('view')
+                else '$.prices.values().sum()'][step[1] % 8]
+        try:
+            got = ('ok', common.snapshot(_yaql.eval(text, doc)))
+        except Exception as e:   # noqa
+            got = ('exc', type(e).__name__)
+        fresh = _copy.deepcopy(doc) if not case.get('view') else dict(
+            doc, prices={'a': 1, 'b': 2}.values())
+        try:
+            exp = ('ok', common.snapshot(common.engine()(text).evaluate(
+                data=fresh, context=common.child())))
+        except Exception as e:   # noqa
+            exp = ('exc', type(e).__name__)
+        if got != exp:
+            bad = (text, got, exp)
+            break
+    run.case(case, any(s[0] == 'mutate' for s in case['steps']),
+             cls=['yaql.eval-history'])
+    if bad:
+        run.violate('evaluation-depends-on-history', case,
+                    'yaql.eval(%r, doc) after the host updated doc in '
+                    'place: %r; a fresh evaluation of an equal document: %r'
+                    % bad, input_class='yaql.eval')
+
+
 # --------------------------------------------------------------------------
 # (b) histories
 
@@ -487,7 +684,8 @@ def run_history(run, case):
 
 
 REPLAY = {'sweep': check_sweep, 'history': run_history,
-          'rawout': check_rawout}
+          'rawout': check_rawout, 'hostcoll': check_hostcoll,
+          'eval-history': check_eval_history}
 
 
 def make_machine(run):
@@ -546,6 +744,18 @@ def run(run):
     for i in range(len(RAW_PROBES)):
         for top in ('dict', 'tuple'):
             check_rawout(run, {'kind': 'rawout', 'probe': i, 'top': top})
+    for t in sorted(_host_collections()):
+        for i in range(len(HOSTCOLL_TEXTS)):
+            for via in ('variable', 'raw-data'):
+                check_hostcoll(run, {'kind': 'hostcoll', 'type': t,
+                                     'text': i, 'via': via})
+    steps = st.lists(st.tuples(st.sampled_from(['eval', 'eval', 'mutate']),
+                               st.integers(0, 7)).map(list), min_size=2,
+                     max_size=8)
+    run.hyp('yaql.eval-histories', st.builds(
+        lambda s_, v: {'kind': 'eval-history', 'steps': s_, 'view': v},
+        steps, st.booleans()), lambda c: check_eval_history(run, c),
+        200 if full else 40)
     run.shards(_sweep_shard, [(i, 16, 6 if full else 2) for i in range(16)],
                watchdog=120)
     k = 8
